@@ -73,10 +73,10 @@ func (r *R) Perm(n int) []int { return r.Rand.Perm(n) }
 var alphabets = []string{
 	"abcdefghijklmnopqrstuvwxyz",
 	"ABCDEFGHIJKLMNOPQRSTUVWXYZ0123456789_:-",
-	" <>&\"'",            // XML / JSON specials
-	"äöüßéèñçøåÆ",        // 2-byte UTF-8
-	"日本語中文한국어ภาษาไทย",      // 3-byte UTF-8
-	"😀🗺🚲𝄞",               // 4-byte UTF-8
+	" <>&\"'",     // XML / JSON specials
+	"äöüßéèñçøåÆ", // 2-byte UTF-8
+	"日本語中文한국어ภาษาไทย", // 3-byte UTF-8
+	"😀🗺🚲𝄞",                // 4-byte UTF-8
 	"\\/;=,.{}[]()#%+*?!", // punctuation
 }
 
